@@ -241,7 +241,7 @@ func check(c conf, r *vm.Result) string {
 	if len(msgs) == 0 {
 		return ""
 	}
-	return msgs[0] + "\n" + strings.Join(msgs, "\n") + "\n" + r.ObsString() + "\nblocked: " + strings.Join(r.Blocked, " ")
+	return e1.Multi(msgs, r.ObsString()+"\nblocked: "+strings.Join(r.Blocked, " "))
 }
 
 func main() {
